@@ -136,13 +136,13 @@ pub fn exhaustive(ctx: &Ctx) -> Frag {
 }
 
 #[derive(Clone, Debug)]
-struct IterCase {
-    needles: Vec<u8>,
-    hay: Vec<u8>,
-    place: Place,
+pub struct IterCase {
+    pub needles: Vec<u8>,
+    pub hay: Vec<u8>,
+    pub place: Place,
 }
 
-fn iter_case(max_len: usize) -> impl Strategy<Value = IterCase> {
+pub fn iter_case(max_len: usize) -> impl Strategy<Value = IterCase> {
     let needles = prop_oneof![
         Just(vec![b'a']),
         Just(vec![0u8]),
